@@ -48,6 +48,8 @@ PROP = {  # subject prefix -> (properties, what failed before the repair)
  "apply with every key null and a mask": ("C07 C16", "median with a mask and no group raised IndexError; size(transform=True) lost the keys' index"),
  "var/std/median with transform=True return polars": ("C07", "var/std(transform=True) of polars values raised ValueError; median(transform=True) returned pandas for polars input"),
  "std(transform=True) of a polars frame": ("C07", "std(transform=True) of a polars DataFrame raised TypeError"),
+ "margins build the grid of level codes": ("C14", "every margins= / crosstab(margins=) call raised ModuleNotFoundError (pandas.core.reshape.util)"),
+ "polars datetime keys keep a pandas dtype": ("C02 C12", "polars datetime keys raised TypeError on the chunked route; factorize_2d(sort=True) raised IndexError when every row had a null key"),
  "apply returns an empty result": ("C05 C09", "median/apply with nothing selected raised IndexError (was known finding K2)"),
 }
 log = subprocess.run(["git", "-C", "/repo", "log", "--format=%h %s", "be63ad5..HEAD"], stdout=subprocess.PIPE).stdout.decode().splitlines()
